@@ -174,10 +174,133 @@ def render_token(kind, name):
         return "<%s/>" % name
     return OTHER_TOKENS[kind - 4]
 
-OTHER_TOKENS = ["x", " ", "\x00", "<!--c-->", "<!DOCTYPE html>", "<!DOCTYPE html PUBLIC \"-//W3C//DTD HTML 4.01 Transitional//EN\">", "\n", "&amp;", "<a href=x>", "<input type=hidden>", "<font size=1>", "<annotation-xml encoding=TEXT/HTML>"]
+OTHER_TOKENS = ["", "x", " ", "\x00", "<!--c-->", "<!DOCTYPE html>", "<!DOCTYPE html PUBLIC \"-//W3C//DTD HTML 4.01 Transitional//EN\">", "\n", "&amp;", "<a href=x>", "<input type=hidden>", "<font size=1>", "<annotation-xml encoding=TEXT/HTML>"]
 
 def pick(n, i):
     for k in range(n):
         if i == k:
             return k
     return None
+
+# ---------------------------------------------------------------- running concrete bodies at native speed
+class untraced:
+    """after the symbolic choices have been forked into concrete values, run the (now concrete) body without CrossHair's
+    opcode tracing; a no-op in plain Python (replays)"""
+    def __enter__(self):
+        self.cm = None
+        try:
+            from crosshair.tracers import NoTracing, is_tracing
+            if is_tracing():
+                self.cm = NoTracing()
+                self.cm.__enter__()
+        except ImportError:
+            pass
+        return self
+    def __exit__(self, *a):
+        if self.cm is not None:
+            self.cm.__exit__(*a)
+        return False
+
+# ---------------------------------------------------------------- unified abstract trees (R7) across builders
+HTML_NS = namespaces["html"]
+
+def _split(tag):
+    if tag[:1] == "{":
+        ns, _, local = tag[1:].partition("}")
+        return (ns, local)
+    return (None, tag)
+
+def norm_et(e, top=True):
+    """pure-Python ElementTree node -> ('elem', (ns, local), attrs, children) with ns None -> HTML namespace"""
+    if not isinstance(e.tag, str):
+        return ("comment", e.text or "")
+    if e.tag == "<!DOCTYPE>":
+        return ("doctype", e.text or "", e.get("publicId") or "", e.get("systemId") or "")
+    kids = []
+    def text(t):
+        if t:
+            if kids and kids[-1][0] == "text":
+                kids[-1] = ("text", kids[-1][1] + t)
+            else:
+                kids.append(("text", t))
+    text(e.text)
+    for c in e:
+        kids.append(norm_et(c, False))
+        text(c.tail)
+    if e.tag in ("DOCUMENT_ROOT", "DOCUMENT_FRAGMENT"):
+        return ("root", tuple(kids))
+    ns, local = _split(e.tag)
+    attrs = tuple(sorted(((_split(k), v) for k, v in e.attrib.items()), key=repr))
+    return ("elem", (ns or HTML_NS, local), attrs, tuple(kids))
+
+def norm_dom(n):
+    if n.nodeType == n.TEXT_NODE:
+        return ("text", n.nodeValue)
+    if n.nodeType == n.COMMENT_NODE:
+        return ("comment", n.nodeValue)
+    if n.nodeType == n.DOCUMENT_TYPE_NODE:
+        return ("doctype", n.name or "", n.publicId or "", n.systemId or "")
+    kids = []
+    for c in n.childNodes:
+        k = norm_dom(c)
+        if k[0] == "text":
+            if k[1] == "":
+                continue
+            if kids and kids[-1][0] == "text":
+                kids[-1] = ("text", kids[-1][1] + k[1])
+                continue
+        kids.append(k)
+    if n.nodeType in (n.DOCUMENT_NODE, n.DOCUMENT_FRAGMENT_NODE):
+        return ("root", tuple(kids))
+    attrs = []
+    for i in range(n.attributes.length):
+        a = n.attributes.item(i)
+        attrs.append(((a.namespaceURI, a.localName if a.namespaceURI else a.name), a.value))
+    local = n.localName if n.namespaceURI else n.nodeName
+    return ("elem", (n.namespaceURI or HTML_NS, local), tuple(sorted(attrs, key=repr)), tuple(kids))
+
+_TB = {}
+def builder(kind):
+    if kind not in _TB:
+        if kind == "etree-full":
+            _TB[kind] = treebuilders.getTreeBuilder("etree", ET, fullTree=True)
+        elif kind == "etree":
+            _TB[kind] = treebuilders.getTreeBuilder("etree", ET)
+        else:
+            _TB[kind] = treebuilders.getTreeBuilder("dom")
+    return _TB[kind]
+
+def parse_norm(kind, ns, chunks, container, scripting=False, strict=False):
+    """-> (normalised tree, parser)"""
+    p = html5parser.HTMLParser(tree=builder(kind), namespaceHTMLElements=ns, strict=strict)
+    src = ChunkSrc(chunks)
+    if container is None:
+        r = p.parse(src, scripting=scripting)
+    else:
+        r = p.parseFragment(src, container=container, scripting=scripting)
+    if kind == "dom":
+        return norm_dom(r), p
+    return norm_et(r), p
+
+def skeleton_ok(tree, allow_noframes_after_frameset=False):
+    """document = optional doctype / comments + exactly one html element whose element children are head then body|frameset,
+    no non-whitespace text directly under html"""
+    if tree[0] != "root":
+        return False
+    htmls = [c for c in tree[1] if c[0] == "elem"]
+    if len(htmls) != 1 or htmls[0][1] != (HTML_NS, "html"):
+        return False
+    for c in tree[1]:
+        if c[0] not in ("elem", "doctype", "comment"):
+            return False
+    html = htmls[0]
+    elems = [c for c in html[3] if c[0] == "elem"]
+    if allow_noframes_after_frameset and len(elems) > 2 and elems[1][1] == (HTML_NS, "frameset"):
+        # known finding C03-noframes-after-frameset: the standard's "after frameset" mode itself inserts noframes under html
+        elems = elems[:2] + [c for c in elems[2:] if c[1] != (HTML_NS, "noframes")]
+    if len(elems) != 2 or elems[0][1] != (HTML_NS, "head") or elems[1][1] not in ((HTML_NS, "body"), (HTML_NS, "frameset")):
+        return False
+    for c in html[3]:
+        if c[0] == "text" and c[1].strip("\t\n\x0c\r ") != "":
+            return False
+    return True
